@@ -27,3 +27,23 @@
 #define GHOST_ARR(t, n, k) t n[k];
 #define IMPLIES(a, b) (!(a) || (b))
 #endif
+/* 1-d hybrid_ndarray<T,N,1> used by the library as a bounded index array */
+#ifndef HN_LEN
+#ifdef VERIF_NATIVE
+  #define HN_LEN(v)   ((unsigned long)nmtools::len(v))
+  #define HN_AT(v, i) (nmtools::at((v), (unsigned long)(i)))
+#else
+  #define HN_LEN(v)   ((v).shape_._M_elems[0])
+  #define HN_AT(v, i) ((v).buffer_._M_elems[i])
+#endif
+#endif
+/* std::array<T,N> (nmtools_array) element access; float absolute value for spec predicates (C18) */
+#ifndef ARR_AT
+#ifdef VERIF_NATIVE
+  #define ARR_AT(a, i) ((a)[(i)])
+  #define SPEC_FABSF(x) (__builtin_fabsf(x))
+#else
+  #define ARR_AT(a, i) ((a)._M_elems[i])
+  #define SPEC_FABSF(x) (__CPROVER_fabsf(x))
+#endif
+#endif
